@@ -264,3 +264,99 @@ def is_name(t):
     import re
     return re.fullmatch(r'[._]?[A-Za-z][A-Za-z0-9_]*|_[A-Za-z0-9_]+', t) is not None and not is_literal(t) \
         and not t.startswith('..') and not t.startswith('__')
+
+
+# ---------------------------------------------------------------------------------------------------------------------
+# text -> AST (used where the model has to evaluate text it did not build itself, e.g. after symbol substitution)
+import re as _re
+
+_TOKEN = _re.compile(r"\s*(BYTE\d\(|LSB\(|<<|>>|\$[0-9a-fA-F]+|0x[0-9a-fA-F]+|[0-9][0-9a-fA-F]*H\b|%[01]+|\d+|'.'|"
+                     r"[._]?[A-Za-z_][A-Za-z0-9_]*|[-+*/%&|^()])")
+
+
+class ParseError(Exception):
+    pass
+
+
+def tokenize(text):
+    pos = 0
+    out = []
+    text = text.strip()
+    while pos < len(text):
+        m = _TOKEN.match(text, pos)
+        if not m:
+            raise ParseError('bad character at %d in %r' % (pos, text))
+        out.append(m.group(1))
+        pos = m.end()
+    return out
+
+
+def _lit_value(t):
+    if t[0] == '$':
+        return int(t[1:], 16)
+    if t.startswith('0x'):
+        return int(t[2:], 16)
+    if t.endswith('H'):
+        return int(t[:-1], 16)
+    if t[0] == '%':
+        return int(t[1:], 2)
+    if t[0] == "'":
+        return ord(t[1])
+    return int(t)
+
+
+def parse(text_or_tokens):
+    toks = tokenize(text_or_tokens) if isinstance(text_or_tokens, str) else list(text_or_tokens)
+    pos = [0]
+
+    def peek():
+        return toks[pos[0]] if pos[0] < len(toks) else None
+
+    def eat():
+        t = toks[pos[0]]
+        pos[0] += 1
+        return t
+
+    def primary():
+        t = peek()
+        if t is None:
+            raise ParseError('unexpected end')
+        if t == '-':
+            eat()
+            return ['neg', primary()]
+        if t == '(':
+            eat()
+            e = expr(0)
+            if peek() != ')':
+                raise ParseError('expected )')
+            eat()
+            return ['par', e]
+        if is_func(t):
+            eat()
+            e = expr(0)
+            if peek() != ')':
+                raise ParseError('expected )')
+            eat()
+            return ['lsb', e] if t == 'LSB(' else ['byte', int(t[4]), e]
+        if _re.fullmatch(r"\$[0-9a-fA-F]+|0x[0-9a-fA-F]+|[0-9][0-9a-fA-F]*H|%[01]+|\d+|'.'", t):
+            eat()
+            return ['num', _lit_value(t), t]
+        if _re.fullmatch(r'[._]?[A-Za-z_][A-Za-z0-9_]*', t):
+            eat()
+            return ['name', t]
+        raise ParseError('unexpected token ' + t)
+
+    def expr(minlevel):
+        left = primary()
+        while True:
+            t = peek()
+            if t not in LEVEL or LEVEL[t] < minlevel:
+                return left
+            eat()
+            right = expr(LEVEL[t] + 1)
+            left = ['bin', t, left, right]
+
+    e = expr(0)
+    if pos[0] != len(toks):
+        raise ParseError('trailing tokens')
+    return e
